@@ -256,6 +256,17 @@ fn c13(quick: bool) -> PropRun {
             let env = LwEnv { fates: &[Fate::Deliver, Fate::Drop, Fate::Delay3], deltas: &[20, 0, 1, 1000, 60_000], dev_rounds: dev, dev_start: 0, max_rounds: dev + 150, skip_choice: false, flush_choice: true,
                               blackouts: &[], stop_when_idle: false, fair_delta: 20, slow_after: usize::MAX, slow_delta: 250, fuel: 2_000_000, shifts: &[] };
             let mut env = env; if idle { env.dev_start = 148; env.max_rounds = 148 + dev + 250; }
+            // with a backlog: the acknowledgements (or everything) are lost for 2 s / 10 s from any round of the window - feedback
+            // blackouts drive the nofeedback timer while the sender keeps transmitting
+            if name.starts_with("backlog") || name == "big-packet" {
+                let mut envb = env.clone(); envb.blackouts = &[(2, 100), (2, 500), (3, 100)]; envb.max_rounds = dev + 700; envb.deltas = &[20, 0, 1000];
+                scs.push(spec(&format!("C13.{}.feedback-blackout", name), &cfg, &si, envb, d, oracles));
+            }
+            // low ceilings send a frame every 0.3-1 s: loss is only reported after a second; the feedback blackout may start up to 2 s in
+            if name == "backlog-20" && bw <= 5000 {
+                let mut envl = env.clone(); envl.blackouts = &[(2, 250), (3, 250)]; envl.dev_rounds = if quick { 100 } else { 150 }; envl.max_rounds = envl.dev_rounds + 800; envl.deltas = &[20]; envl.flush_choice = false; envl.fates = &[Fate::Deliver, Fate::Drop];
+                scs.push(spec(&format!("C13.{}.late-feedback-blackout", name), &cfg, &si, envl, 2, oracles));
+            }
             scs.push(spec(&format!("C13.{}", name), &cfg, &si, env, d, oracles));
         }
     }
